@@ -178,11 +178,11 @@ ser_method(T, 'serialize_struct',
                  ('R6', 'SerializeTimestamp::default()', 'SerializeTimestamp { secs: 0, nanos: 0 }'),
                  ('R6', 'name != Duration::STRUCT_NAME', '!__str_eq(name, Duration::STRUCT_NAME)')])
 ser_method(T, 'serialize_str',
-           [('the_timestamp_marker_parses_rfc3339_text', 'self is Timestamp ==> match rfc3339_parse(v@) { Some(t) => res == %s(Value::Timestamp(t)), None => res matches Err(SerializationError::SerdeError(_)) }' % OKV),
-            ('the_duration_marker_rejects_text', '!(self is Timestamp) ==> res matches Err(SerializationError::SerdeError(_))')],
+           [('the_timestamp_marker_parses_rfc3339_text_keeping_instant_and_offset', 'self is Timestamp ==> (match chrono_text::parse_text(v@) { Some(t) => res == %s(Value::Timestamp(t)), None => res matches Err(SerializationError::SerdeError(_)) })' % OKV),
+            ('the_duration_marker_rejects_text', '!(self is Timestamp) ==> (res matches Err(SerializationError::SerdeError(_)))')],
            subs=[('R6', '"expected Timestamp string with Timestamp marker newtype struct".to_owned()', '__str_to_string("expected Timestamp string with Timestamp marker newtype struct")'),
-                 ('W', 'Ok(v.parse::<chrono::DateTime<FixedOffset>>() .map_err(|e| SerializationError::SerdeError(e.to_string()))? .into())',
-                  'Ok(__timestamp_into_value(__parse_datetime(v)?))')])
+                 ('R6', 'e.to_string()', 'chrono_text::__parse_error_text(&e)')],
+           extra=['entry\n        proof { chrono_text::axiom_chrono_text(); }', 'closure "|e|"\n    -> (o: SerializationError) ensures o is SerdeError'])
 for fn in ('serialize_bool', 'serialize_i8', 'serialize_i16', 'serialize_i32', 'serialize_i64', 'serialize_u8', 'serialize_u16', 'serialize_u32', 'serialize_u64',
            'serialize_f32', 'serialize_f64', 'serialize_char', 'serialize_bytes', 'serialize_none', 'serialize_some', 'serialize_unit', 'serialize_unit_struct',
            'serialize_unit_variant', 'serialize_newtype_struct', 'serialize_newtype_variant', 'serialize_seq', 'serialize_tuple', 'serialize_tuple_struct',
@@ -208,7 +208,7 @@ U('ser.timestamp.end', 'impl ser::SerializeStruct for SerializeTimestamp', 'end'
     'match res { Ok(v) => v matches Value::Duration(d) && chrono::dur_ns(d) == self.secs as int * 1_000_000_000 + self.nanos as int, Err(_) => true }')],
   sigs=[('std::result::Result<Self::Ok, Self::Error>', 'std::result::Result<Value, SerializationError>')],
   subs=[('R6', '"duration is out of range".to_owned()', '__str_to_string("duration is out of range")'),
-        ('R6', 'Ok(duration.into())', 'Ok(__duration_into_value(duration))')],
+        ],
   extra=['closure "|secs|"\n    -> (o: Option<chrono::Duration>)\n        ensures o == (if chrono::dur_ok(chrono::dur_ns(secs) + self.nanos as int) { o } else { None::<chrono::Duration> }), o matches Some(d) ==> chrono::dur_ns(d) == chrono::dur_ns(secs) + self.nanos as int'])
 
 
